@@ -1,11 +1,12 @@
 package core
 
 import (
-	"sort"
 	"fmt"
+	"go/ast"
 	"go/token"
 	"go/types"
 	"path/filepath"
+	"sort"
 	"strings"
 
 	"golang.org/x/tools/go/ssa"
@@ -706,8 +707,10 @@ func (x *Exec) atCallCheck(fr *frame, s *State, key string, args []Value) {
 			for i, a := range args {
 				env = env.with(fmt.Sprintf("callarg%d", i), a)
 			}
-			// a call site where the locals the assertion names are not in scope is not the anchored one
-			prop, ok := func() (t Term, ok bool) {
+			// a call site where the locals the assertion names are not in scope is not the anchored one;
+			// in a top-level disjunction (alternatives for several sites of the same callee) a
+			// disjunct that names locals not in scope at this site is dropped, not the whole clause
+			tryEval := func(e ast.Expr) (t Term, ok bool) {
 				defer func() {
 					if r := recover(); r != nil {
 						if u, isU := r.(unsupported); isU && strings.Contains(u.msg, "unknown identifier") {
@@ -717,8 +720,41 @@ func (x *Exec) atCallCheck(fr *frame, s *State, key string, args []Value) {
 						panic(r)
 					}
 				}()
-				return env.evalGoal(ac.Expr), true
-			}()
+				return env.evalGoal(e), true
+			}
+			var disjuncts []ast.Expr
+			var split func(e ast.Expr)
+			split = func(e ast.Expr) {
+				for {
+					p, isP := e.(*ast.ParenExpr)
+					if !isP {
+						break
+					}
+					e = p.X
+				}
+				if b, isB := e.(*ast.BinaryExpr); isB && b.Op == token.LOR {
+					split(b.X)
+					split(b.Y)
+					return
+				}
+				disjuncts = append(disjuncts, e)
+			}
+			split(ac.Expr)
+			var prop Term
+			ok := false
+			if len(disjuncts) <= 1 {
+				prop, ok = tryEval(ac.Expr)
+			} else {
+				var alts []Term
+				for _, d := range disjuncts {
+					if t, dok := tryEval(d); dok {
+						alts = append(alts, t)
+					}
+				}
+				if len(alts) > 0 {
+					prop, ok = Or(alts...), true
+				}
+			}
 			if !ok {
 				continue
 			}
